@@ -79,8 +79,6 @@ def apiDegradeOnRead (f : FileObj) (ordOut : Nat) (red : String) (pixels : Optio
     | some w =>
       if red == "wmean" then
         if w.covord != f.covord then throw .value
-        let wc := cfgOf w.covord w.spord
-        if !(px.all fun k => covered wc (⟨w.file.cov, w.file.data⟩ : State Val) k) then throw .value
         pure true
       else pure false
     | none => pure false
@@ -104,6 +102,18 @@ def apiDegradeOnRead (f : FileObj) (ordOut : Nat) (red : String) (pixels : Optio
     match st with
     | some st => pure { covord := f.covord, spord := ordOut, kind := kindOut, sent := sentOut, st := st }
     | none => throw .runtime
+  -- weight file: coverage is needed only where the map has observed pixels (checked block by
+  -- block in the read loop after the `fix:` commit; before it, up front for every pixel read,
+  -- so that an allocated but unobserved coverage pixel of the map made the call fail)
+  if useW then
+    match wf with
+    | some w =>
+      let wc := cfgOf w.covord w.spord
+      let fs : State Val := ⟨f.file.cov, f.file.data⟩
+      let observed (k : Nat) : Bool := (List.range c.nfine).any fun j =>
+        vc.valid (rd f.file.data ((blockStart c fs k).toNat + j) vc.sentinel)
+      if !(px.all fun k => covered wc (⟨w.file.cov, w.file.data⟩ : State Val) k || !observed k) then throw .value
+    | none => pure ()
   let wprep (sw : Val) (x : Val) : Val := if x == sw then .num 0 0 else x
   if !(red == "and" || red == "or") && !cellsFitF64 f.file.data then throw .inexact
   match kind with
